@@ -31,7 +31,8 @@ structure PassFacts (j0 : JobObj) (s0 sp : Sys) (jo : JobObj) : Prop where
 
 theorem Inv3G.micro {j0 jo : JobObj} {s0 sp s s' : Sys} (hb : Base j0 s) (h2 : Inv2 j0 s) (h3 : Inv3G s)
     (hc : s.jobCache = some jo) (pf : PassFacts j0 s0 sp jo) (hd : s.d = sp.d) (hcache : s.podCache = sp.podCache)
-    (hjn : s0.job = none → s.job = none) (hpp : PassPods s0 sp s) (hm : Micro jo sp s s') :
+    (hjn : s0.job = none → s.job = none) (hpp : PassPods s0 sp s) (hid : CachedIsCur jo (sync sp jo).1)
+    (hm : Micro jo sp s s') :
     Inv3G s' ∧ PassPods s0 sp s' ∧ (s0.job = none → s'.job = none) := by
   have hseen := mem_seenVers_cache hc
   have hjo := (hb.seenOK jo hseen).1
@@ -158,10 +159,48 @@ theorem Inv3G.micro {j0 jo : JobObj} {s0 sp s s' : Sys} (hb : Base j0 s) (h2 : I
           · rw [pf.frame.podCache] at h; exact hfr.2.1 h
       · exact hle.names
       · intro q hq; rw [hs.pods] at hq; exact hpp q hq
+  | updStatusOn s1 hs1 hs1' hok =>
+    rcases apiUpdateJobStatus_spec s { jo with rv := updatedRv s jo } { jo with job := (sync sp jo).2.1 } with
+      hs | ⟨c, hc', hrv, hs⟩
+    · refine ⟨fun hj => (h3 (by rw [← hs.job]; exact hj)).frame hs, ?_, fun h0 => hs.job.trans (hjn h0)⟩
+      intro q hq; rw [hs.pods] at hq; exact hpp q hq
+    · -- the object `Update` produced: the cached Job with the computed metadata
+      have hcs := (apiUpdateJob_ok_cur (hs1 ▸ hid) hok c (hs1' ▸ hc')).1
+      obtain ⟨r0, rfl⟩ : ∃ r0, c =
+          specWrite jo { jo with job := (sync sp jo).2.1, finalizer := (sync sp jo).2.2.1 } r0 := ⟨_, hcs⟩
+      have h3' := h3 (by rw [hc']; rfl)
+      have hcv : specWrite jo { jo with job := (sync sp jo).2.1, finalizer := (sync sp jo).2.2.1 } r0 ∈ allVers s := by
+        unfold allVers; rw [hc']; simp
+      have hv := h3'.ver _ hcv
+      obtain ⟨j0', hj0'⟩ : ∃ j, s0.job = some j := by
+        cases h0 : s0.job with
+        | none => rw [hjn h0] at hc'; cases hc'
+        | some j => exact ⟨j, rfl⟩
+      refine ⟨fun _ => h3'.jobWrite hs hc' ⟨?_, hv.noKill, hv.noAdm, ?_⟩ ?_ ?_, ?_,
+        fun h0 => by rw [hjn h0] at hc'; cases hc'⟩
+      · exact pf.res.rs
+      · rw [hd]
+        refine pf.coh.congr ?_ rfl rfl rfl rfl rfl ?_
+        · exact hv.noAdm
+        · show jo.job.deletionTimestamp = _; exact hle.del.symm
+      · intro r hr hf q hq hqn
+        have hr' : r ∈ (sync sp jo).2.1.status.tasks := hr
+        rcases hpp q hq with ⟨q0, hq0, hn0, hmono⟩ | hfr
+        · exact hmono (pf.res.fin r hr' hf q0 hq0 (hn0.trans hqn))
+        · exfalso
+          have hsrc := pf.res.src r hr' hf
+          unfold passNames at hsrc
+          rw [← hqn] at hsrc
+          rcases List.mem_append.mp hsrc with h | h
+          · exact hfr.1 j0' hj0' (pf.leJo j0' hj0' _ h)
+          · rw [pf.frame.podCache] at h; exact hfr.2.1 h
+      · exact hle.names
+      · intro q hq; rw [hs.pods] at hq; exact hpp q hq
 
 theorem Inv3G.micros {j0 jo : JobObj} {s0 sp s s' : Sys} (hb : Base j0 s) (h2 : Inv2 j0 s) (h3 : Inv3G s)
     (hc : s.jobCache = some jo) (pf : PassFacts j0 s0 sp jo) (hd : s.d = sp.d) (hcache : s.podCache = sp.podCache)
-    (hjn : s0.job = none → s.job = none) (hpp : PassPods s0 sp s) (hm : Micros jo sp s s') :
+    (hjn : s0.job = none → s.job = none) (hpp : PassPods s0 sp s) (hid : CachedIsCur jo (sync sp jo).1)
+    (hm : Micros jo sp s s') :
     Inv3G s' := by
   suffices h : Inv3G s' ∧ PassPods s0 sp s' ∧ (s0.job = none → s'.job = none) from h.1
   induction hm with
@@ -170,7 +209,7 @@ theorem Inv3G.micros {j0 jo : JobObj} {s0 sp s s' : Sys} (hb : Base j0 s) (h2 : 
     have hbm := hb.micros hc hms
     have h2m := Inv2.micros hb h2 hc pf.wf2 pf.podsSp pf.goodJo hd.symm hms
     exact Inv3G.micro hbm.1 h2m ih.1 hbm.2 pf (hms.static.d.trans hd) (hms.static.podCache.trans hcache)
-      ih.2.2 ih.2.1 hm
+      ih.2.2 ih.2.1 hid hm
 
 /-! ### a whole pass -/
 
@@ -323,7 +362,7 @@ theorem Inv3G.step {j0 : JobObj} {s : Sys} (hb : Base j0 s) (h2 : Inv2 j0 s) (ho
       have pf := passFacts_of_inv hb h2 ho h3' hwf hwf3 hc hf hns
       have hcsp : sp.jobCache = some jo := hf.jobCache.trans hc
       refine Inv3G.micros (hb.frame hf) (h2.frame hf) (fun _ => h3'.frame hf) hcsp pf rfl rfl
-        (fun h0 => hf.job.trans h0) ?_ hm hj'
+        (fun h0 => hf.job.trans h0) ?_ (cachedIsCur_sync (hb.frame hf) hcsp) hm hj'
       intro q hq
       exact Or.inl ⟨q, hq, rfl, fun h => h⟩
   | deliverJob =>
